@@ -29,6 +29,7 @@ type Interp struct {
 	initing bool
 	pendingGo []func()
 	encoded   map[string][]*Term
+	atomicVals map[string]Value // sync/atomic.Value contents (single-threaded model)
 }
 
 type Frame struct {
